@@ -262,6 +262,12 @@ func (reg *Reg) referrerDelete(ctx context.Context, r ref.Ref, m manifest.Manife
 		return nil
 	}
 
+	// lock to avoid internal race conditions between pulling and pushing the fallback tag
+	reg.muRefTag.Lock()
+	defer reg.muRefTag.Unlock()
+	// a referrerPut that ran while waiting for the lock cached a list that still includes this entry
+	defer reg.cacheRL.Delete(rSubject)
+
 	// fallback to using tag schema for refers
 	rl, err := reg.referrerListByTag(ctx, rSubject)
 	if err != nil {
